@@ -123,6 +123,10 @@ func (c *Content) WithFileInfoDefaults(umask fs.FileMode, mtime time.Time) *Cont
 	if cc.FileInfo == nil {
 		cc.FileInfo = &ContentFileInfo{}
 	}
+	// the defaults are filled into a copy: the file info of the content this
+	// one was made from (the parsed configuration) must stay as it was written
+	fileInfo := *cc.FileInfo
+	cc.FileInfo = &fileInfo
 	if cc.FileInfo.Owner == "" {
 		cc.FileInfo.Owner = "root"
 	}
